@@ -5,7 +5,7 @@ while [ ! -f /tmp/mut3/stop ]; do
   for id in $(cat /tmp/mut3/done.txt 2>/dev/null); do
     d=/tmp/mut3/$id
     for n in 1 2 3; do
-      if [ -f $d/out/patch$n.diff ] && [ -f $d/out/demo$n.py ] && [ ! -f /tmp/mut3/results/${id}_$n.json ]; then
+      if [ -f $d/out/patch$n.diff ] && [ -f $d/out/demo$n.py ] && [ ! -f /tmp/mut3/results/${id}_$n.json ] && [ ! -f /tmp/mut3/results/${id}_$n.json.tmp ]; then
         rsync -a --delete --exclude .git --exclude evidence /verif/ /tmp/verif_eval/
         mkdir -p /tmp/verif_eval/evidence
         python3 /verif/tools/eval_mutant.py $d $n /tmp/verif_eval > /tmp/mut3/results/${id}_$n.json.tmp 2>/tmp/mut3/results/${id}_$n.err && mv /tmp/mut3/results/${id}_$n.json.tmp /tmp/mut3/results/${id}_$n.json
